@@ -17,6 +17,7 @@ for i,l in enumerate(ls):
 print(out.replace('$BUILD','_b').replace('<B>','_b'))
 PY
 )
+[ -f "$m/demo.sh" ] && cmd="sh mutants/$n/demo.sh"
 [ -z "$cmd" ] && { echo "$id: no demo command"; exit 8; }
 log=$m/confirm.log; : > $log
 build() { cmake -G Ninja -B _b -DCMAKE_BUILD_TYPE=RelWithDebInfo >>$log 2>&1 && cmake --build _b >>$log 2>&1; }
@@ -32,7 +33,7 @@ git checkout -q -- src
 echo "$id: demo_clean_rc=$clean_rc tests_rc=$trc tests_passed_lines=$passed demo_patched_rc=$mut_rc"
 if [ $clean_rc -eq 0 ] && [ $trc -eq 0 ] && [ $mut_rc -ne 0 ]; then
   d=/verif/seeded/$id; mkdir -p $d
-  cp $m/patch.diff $d/; cp $m/demo.cpp $d/ 2>/dev/null; cp $m/*.h $m/*.hpp $m/findkey.cpp $d/ 2>/dev/null
+  cp $m/patch.diff $d/; cp $m/demo.cpp $d/ 2>/dev/null; cp $m/*.h $m/*.hpp $m/findkey.cpp $m/demo.sh $m/search_input.cpp $d/ 2>/dev/null
   python3 - "$m/meta.json" "$d/meta.json" "$cmd" "$clean_rc" "$trc" "$passed" "$mut_rc" <<'PY'
 import json,sys
 src,dst,cmd,c,t,p,mr=sys.argv[1:]
